@@ -8,7 +8,7 @@
 From Coq Require Import List NArith Bool.
 From Coq Require String.
 Import String.StringSyntax.
-From Sccache Require Import Base.Sx Model.ArgTypes Model.Args Gen.C01ArgTables Model.ArgsInst.
+From Sccache Require Import Base.Sx Model.ArgTypes Model.Args Gen.C01ArgTables Model.ArgsInst Model.EntryBytes.
 Import ListNotations.
 Local Open Scope N_scope.
 Local Open Scope string_scope.
@@ -109,7 +109,21 @@ Definition run_search (x : sx) : sx :=
   | _ => err "bad case"
   end.
 
+(* leg "entry": case = ( mode ( (kind n) ... ) nstdout nstderr ); a hit returns the stored member, stdout and stderr unchanged:
+   result = ( ok mode len checksum outlen outsum errlen errsum ) *)
+Definition run_entry (x : sx) : sx :=
+  match x with
+  | SL [mode; SL chunks; nout; nerr] =>
+      let cs := map (fun c => match c with SL [k; n] => (get_N k, get_N n) | _ => (1, 0) end) chunks in
+      let '(_, _, s, len) := sum_chunks cs (12345, 0, 0, 0) in
+      let '(_, _, so, lo) := sum_chunks [(0, get_N nout)] (777, 0, 0, 0) in
+      let '(_, _, se, le) := sum_chunks [(0, get_N nerr)] (888, 0, 0, 0) in
+      SL [sym "ok"; SN (get_N mode); SN len; SN s; SN lo; SN so; SN le; SN se]
+  | _ => err "bad case"
+  end.
+
 Definition dispatch (leg : list N) (x : sx) : sx :=
   if bytes_eqb leg (bs "parse") then run_parse x
   else if bytes_eqb leg (bs "search") then run_search x
+  else if bytes_eqb leg (bs "entry") then run_entry x
   else err "unknown leg".
